@@ -7,6 +7,7 @@ import (
 	"math/big"
 	"math/rand"
 	"regexp"
+	"sort"
 	"strconv"
 	"strings"
 
@@ -809,6 +810,88 @@ func runScaleProfiles(c *harness.Ctx) harness.Result {
 	return res
 }
 
+// part nodelets: the numeric tag "bytes" shown as nodelets of a graph node. The tag carries its
+// own unit (any spelling of a memory unit, or none = bytes); each nodelet label read back with its
+// unit is within display rounding of value x unit.
+func runNodelets(c *harness.Ctx) harness.Result {
+	r := c.Rng
+	var mem []fromSpec
+	for _, fs := range fromSpecs {
+		if fs.fam == 0 {
+			mem = append(mem, fs)
+		}
+	}
+	fs := mem[r.Intn(len(mem))]
+	fam := families[0]
+	fu := fam.units[fs.u]
+	spelling := fs.spelling
+	if r.Intn(5) == 0 {
+		spelling, fu = "", fam.units[0]
+	}
+	p := &profile.Profile{SampleType: []*profile.ValueType{{Type: "objects", Unit: "count"}}, PeriodType: &profile.ValueType{Type: "space", Unit: "bytes"}, Period: 1}
+	fn := &profile.Function{ID: 1, Name: "alloc", SystemName: "alloc", Filename: "x.go"}
+	loc := &profile.Location{ID: 1, Address: 0x1000, Line: []profile.Line{{Function: fn, Line: 1}}}
+	p.Function, p.Location = []*profile.Function{fn}, []*profile.Location{loc}
+	var want []*big.Rat
+	seen := map[int64]bool{}
+	for i, n := 0, 1+r.Intn(4); i < n; i++ {
+		v := int64(1 + r.Intn(4000))
+		if r.Intn(3) == 0 {
+			v = int64(1+r.Intn(900)) << uint(10*r.Intn(3))
+		}
+		if seen[v] {
+			continue
+		}
+		seen[v] = true
+		sm := &profile.Sample{Value: []int64{int64(1 + i)}, Location: []*profile.Location{loc}, NumLabel: map[string][]int64{"bytes": {v}}}
+		if spelling != "" {
+			sm.NumUnit = map[string][]string{"bytes": {spelling}}
+		}
+		p.Sample = append(p.Sample, sm)
+		want = append(want, mul(v, fu.factor))
+	}
+	desc := fmt.Sprintf("-dot of samples tagged bytes=%v with unit %q", seen, spelling)
+	res := harness.Result{NonTrivial: true, Sig: desc, Sample: desc}
+	out, ui, rr := drv.Report(map[string]*profile.Profile{"p": p}, []string{"p"}, map[string]bool{"dot": true}, nil, nil, nil, nil)
+	if rr.Panic != "" || rr.Err != nil {
+		return harness.Violation("%s: failed: %v %s %v", desc, rr.Err, rr.Panic, ui.Errs)
+	}
+	c.Stat("nodelet_graphs", 1)
+	var got []*big.Rat
+	for _, m := range regexp.MustCompile(`(?m)^NN[0-9]+_[0-9]+ \[label = "([^"]*)"`).FindAllStringSubmatch(out, -1) {
+		v, ok := parseLabel(m[1], fam)
+		if !ok {
+			return harness.Violation("%s: nodelet label %q is not a number with a memory unit\n%s", desc, m[1], out)
+		}
+		got = append(got, v)
+		c.Stat("nodelet_labels", 1)
+	}
+	if len(got) != len(want) {
+		return harness.Violation("%s: %d nodelets for %d distinct tag values\n%s", desc, len(got), len(want), out)
+	}
+	sort.Slice(got, func(i, j int) bool { return got[i].Cmp(got[j]) < 0 })
+	sort.Slice(want, func(i, j int) bool { return want[i].Cmp(want[j]) < 0 })
+	for i := range want {
+		_, wu := autoExpect(fam, want[i])
+		uf := rat(1, 1)
+		for _, u := range fam.units {
+			if u.canon == wu {
+				uf = u.factor
+			}
+		}
+		tol := new(big.Rat).Mul(rat(5001, 1000000), uf)
+		d := new(big.Rat).Sub(got[i], want[i])
+		if d.Abs(d).Cmp(tol) > 0 {
+			gf, _ := got[i].Float64()
+			wf, _ := want[i].Float64()
+			res.Verdict = harness.Violated
+			res.Detail = fmt.Sprintf("%s: the nodelet labels read back as %v bytes where the tag values are %v bytes (value x unit; display rounding allowed)\n%s", desc, gf, wf, out)
+			return res
+		}
+	}
+	return res
+}
+
 func init() {
 	harness.Register(&harness.Check{
 		ID:    "C15",
@@ -823,6 +906,7 @@ func init() {
 			{Name: "drivertop", Quick: 1500, Thor: 60000, Run: runDriverTop},
 			{Name: "percentage", Quick: 500, Thor: 50000, Run: runPercentage},
 			{Name: "scaleprofiles", Quick: 2000, Thor: 200000, Run: runScaleProfiles},
+			{Name: "nodelets", Quick: 600, Thor: 30000, Run: runNodelets},
 		},
 		Extra: func(tier string, st map[string]int64) map[string]any {
 			return map[string]any{"exhaustive_part": "lattice", "lattice_sources": len(fromSpecs)}
